@@ -384,12 +384,19 @@ class Model:
                 tree = ast.parse(src, filename=rel)
             except SyntaxError as e:
                 raise AnalysisError('cannot parse %s: %s' % (rel, e))
-            tree = _CanonicalUpdates().visit(tree)
             name = rel[len(PKG) + 1:-3].replace('/', '.')
             if name.endswith('.__init__'):
                 name = name[:-9]
             elif name == '__init__':
                 name = ''
+            if _reference() is not None and not os.environ.get('VERIF_NO_NORMALIZE'):
+                # before any other normal form: bodies are compared as parsed
+                from . import normalize as _nz
+                for s_ in _nz.restore_function_names(tree, name, _reference()):
+                    self.inlined.append('function renamed relative to the reference tree, followed by its body: %s.%s' % (name, s_))
+                for s_ in _nz.restore_attribute_names(tree, name, _reference()):
+                    self.inlined.append('attribute renamed relative to the reference tree, followed through the bodies that use it: %s.%s' % (name, s_))
+            tree = _CanonicalUpdates().visit(tree)
             from . import normalize
             tree = normalize.default_idiom(tree)
             normalize.with_form(tree)
